@@ -94,7 +94,7 @@ def render_vec(v, kind):
 
 @st.composite
 def plan_st(draw, tier):
-    cfg = draw(gen.config_st(arm_kinds=("int", "str", "float"), max_arms=4, with_binarizer=True, scale_ok=True,
+    cfg = draw(gen.config_st(metrics=gen.SAFE_METRICS, arm_kinds=("int", "str", "float"), max_arms=4, with_binarizer=True, scale_ok=True,
                              defaults_ok=True))
     h = gen.History(draw, cfg, max_rows=7, exact_only=True, grid=draw(st.sampled_from(["int", "half", "nonneg", "mixed"])))
     h.fit() if draw(st.integers(0, 3)) else h.partial_fit()
